@@ -507,6 +507,8 @@ func (s *seqCtx) note(op, id string) {
 		s.c.Count("reads_large_path", 1)
 	}
 	s.c.Eval(strings.Join([]string{s.rp.layout, s.rp.format, s.o.String(), op, in.class()}, "|"), in.nontrivial() || strings.HasPrefix(op, "Iter") || op == "HashesWithPrefix")
+	// vf keeps only the first few samples
+	s.c.Sample(map[string]any{"repository_layout": s.rp.layout, "object_format": s.rp.format, "storage_options": s.o.String(), "operation": op, "object": id, "location_class": in.class()})
 }
 
 // checkObj compares metadata and, through mode, the content of a returned object.
